@@ -4,6 +4,80 @@ import sys, os, json
 sys.path.insert(0, os.path.join(os.path.dirname(os.path.abspath(__file__)), "..", "lib"))
 from loccheck import *
 
+POST_STATS = collections.Counter()
+
+# Proposed known finding (until it is in known_findings.json): SubstituteBindings ends with CoerceFakeFloats(x), which WRITES into every
+# map of the substituted document -- and a variable bound to a map (`?event`) is substituted by reference, so the map written to is the
+# event shared by all concurrently running actions of the rule (they read it: json.Marshal of the bindings, Copy in maybeCopyEvent).
+RACE_ID = "C04-post-subvars-writes-shared-event"
+PROPOSED = [
+    {"property": "C04", "id": RACE_ID, "class": "crash: a rule without serialActions, one of whose actions has an HTTP endpoint, subvars, and a code that names a variable bound to a map (?event)",
+     "what": "SubstituteBindings -> CoerceFakeFloats assigns to the keys of the event map (substituted by reference) while the other actions of the rule "
+             "iterate over the same map (json.Marshal of the bindings / maybeCopyEvent): the Go runtime kills the process with 'fatal error: concurrent map iteration and map write' "
+             "(or 'concurrent map writes' when two such actions run); expected: the event of a running rule is not written to",
+     "witness": {"kind": "loc", "state": "linear", "locs": ["a"], "ops":
+                 [{"op": "addRule", "loc": "a", "id": "r1", "rule": {"when": {"pattern": {"who": "?w"}}, "actions": [
+                     {"endpoint": "http://verif.post/", "code": "{\"e\": \"?event\"}", "verif_tmpl": {"t": "post", "code": {"e": "?event"}, "subvars": True}},
+                     {"endpoint": "http://verif.post/", "code": "{\"e\": \"?event\"}", "verif_tmpl": {"t": "post", "code": {"e": "?event"}, "subvars": True}},
+                     {"code": "Env.bindings", "verif_tmpl": {"t": "echo"}}]}}] +
+                 [{"op": "event", "loc": "a", "event": {"who": "homer", "a": 1, "b": 2, "c": 3, "d": {"e": 4}}}] * 40}},
+]
+
+def racy_case(c):
+    """The class of RACE_ID: the history may kill the process (by chance of scheduling)."""
+    for o in c["ops"]:
+        if o["op"] != "addRule" or (o["rule"].get("policies") or {}).get("serialActions"): continue
+        for a in rule_actions(o["rule"]):
+            if is_post(a) and a.get("subvars") is not False and not a["verif_tmpl"].get("badjson") and "?event" in vars_of(a["verif_tmpl"]["code"]):
+                return True
+    return False
+
+def post_template(rng, vars_):
+    """A JSON template over the variables `vars_` (all start with `?`): exact-variable strings, constants, numbers, nested in
+    arrays and maps. Returns (template, has_unbound, mixed)."""
+    flags = {"unbound": False, "mixed": False}
+    def leaf():
+        r = rng.random()
+        if r < 0.5: return rng.choice(vars_)
+        if r < 0.58: flags["unbound"] = True; return rng.choice(["?zz", "?_u1", "?W"])     # a naked variable nothing binds
+        if r < 0.60: flags["mixed"] = True; return rng.choice(["id-?w", "?w/?l", "x ?t.", "?w?", "??w"])   # text mixed with variables: outside the model
+        if r < 0.75: return rng.choice(["c", "tacos", "", "w", "no var here", "a.b-c"])
+        if r < 0.9: return rng.choice([0, 1, 2, -7, 1000000])
+        return rng.choice([True, False, None])
+    def node(depth):
+        r = rng.random()
+        if depth == 0 or r < 0.35: return leaf()
+        if r < 0.65: return [node(depth - 1) for _ in range(rng.randint(0, 3))]
+        return {k: node(depth - 1) for k in rng.sample(["a", "b", "k", "who", "n1"], rng.randint(0, 3))}
+    t = node(rng.randint(0, 3))
+    return t, flags["unbound"], flags["mixed"]
+
+def post_for(rng, vars_):
+    """One action with an HTTP endpoint for a rule whose `when`/condition may bind `vars_`."""
+    tmpl, unbound, mixed = post_template(rng, vars_ + ["?event", "?location", "?ruleId"])
+    subvars = rng.choice([None, None, True, True, False])
+    opts = rng.choice([None, None, {}, {"x": 1}, {"k": "v", "n": [1, 2]}])
+    text = "not json" if rng.random() < 0.04 else None
+    a = post_action(tmpl, subvars=subvars, opts=opts, text=text)
+    POST_STATS["post_actions"] += 1
+    if subvars is not False: POST_STATS["post_subvars"] += 1
+    if opts is not None: POST_STATS["post_with_opts"] += 1
+    if text is not None: POST_STATS["post_badjson"] += 1; mixed = False; unbound = False
+    if unbound: POST_STATS["post_unbound"] += 1
+    if mixed: POST_STATS["post_mixed"] += 1
+    return a, (unbound or text is not None) and subvars is not False, mixed and subvars is not False and text is None
+
+def vars_of(x):
+    out = []
+    def go(v):
+        if isinstance(v, str) and v.startswith("?") and v not in out: out.append(v)
+        elif isinstance(v, dict):
+            for k, w in v.items(): go(k); go(w)
+        elif isinstance(v, list):
+            for w in v: go(w)
+    go(x)
+    return out
+
 def gen_case(rng, thorough):
     ops = []
     # facts the conditions join with: 0..3 bindings per condition
@@ -12,6 +86,7 @@ def gen_case(rng, thorough):
         ops.append({"op": "addFact", "loc": "a", "id": "f%d" % i, "fact": {"likes": rng.choice(["tacos", "chips", "beer"]), "who": rng.choice(["homer", "bart"])}})
     nr = rng.randint(0, 4)
     failing = False
+    mixed = False
     for i in range(nr):
         multi = rng.random() < 0.4
         when = {"who": "?w"} if not multi else {"tags": ["?t"], "who": "?w"}       # an array pattern with a variable: one `when` binding per element
@@ -37,6 +112,15 @@ def gen_case(rng, thorough):
                 t = rng.choice([{"t": "bindvar", "k": "n", "x": "w"}, {"t": "eqvar", "x": "w", "v": rng.choice(["homer", "bart"])}])
                 a = {"code": js_of_tmpl(t), "verif_tmpl": t}
             acts.append(a)
+        if rng.random() < 0.2:
+            # actions with an HTTP endpoint: the code is a JSON template over the variables `when` and the condition bind
+            vs = [v for v in vars_of(when) + vars_of(r.get("condition", {}).get("pattern") or r.get("condition", {}).get("or") or {}) if v not in ("?location", "?ruleId", "?event")]
+            if isinstance(r.get("condition", {}).get("or"), list) and any("code" in d for d in r["condition"]["or"]): vs += ["?n", "?m"]
+            some = False
+            for j in range(k):
+                if rng.random() < 0.6 or (j == k - 1 and not some):
+                    acts[j], may_fail, mx = post_for(rng, vs or ["?w"]); some = True
+                    failing = failing or may_fail; mixed = mixed or mx
         if k == 1 and rng.random() < 0.5: r["action"] = acts[0]
         else: r["actions"] = acts
         if rng.random() < 0.25: r["policies"] = {"serialActions": True}
@@ -49,6 +133,9 @@ def gen_case(rng, thorough):
         sid = "s%d" % rng.randint(0, 1)
         sr = {"schedule": rng.choice(["* * * * * * 2099", "0 0 0 1 1 * 2098"]), "actions": [action(rng, fail_prob=0.0) for _ in range(rng.randint(1, 2))]}
         if rng.random() < 0.4: sr["condition"] = {"pattern": {"likes": "?l"}}
+        if rng.random() < 0.2:
+            j = rng.randrange(len(sr["actions"]))
+            sr["actions"][j], may_fail, mx = post_for(rng, ["?l"]); failing = failing or may_fail; mixed = mixed or mx
         ops.append({"op": "addRule", "loc": "a", "id": sid, "rule": sr})
         for _ in range(rng.randint(1, 2)):
             ops.append({"op": "event", "loc": "a", "event": {"trigger!": sid}})
@@ -57,7 +144,14 @@ def gen_case(rng, thorough):
         if rng.random() < 0.6: ev["tags"] = rng.sample(["x", "y", "z"], rng.randint(1, 3))
         if rng.random() < 0.2: ev["other"] = 1
         ops.append({"op": "event", "loc": "a", "event": ev})
-    return ops, failing
+    if any(is_post(a) for o in ops if o["op"] == "addRule" for a in rule_actions(o["rule"])):
+        # DefaultControl sets UseDefaultVariableValue (an unbound variable is sent as "undefined"); a deployment may switch it off
+        for o in ops:
+            if o["op"] == "event" and rng.random() < 0.4: o["noDefaultVar"] = True
+    return ops, failing, mixed
+
+def rule_actions(r):
+    return r.get("actions") or [r.get("action")]
 
 def tree_counts(t):
     rules = t.get("rules") or []
@@ -77,14 +171,65 @@ def main():
     lr = LocRun(ck, [("doc:abort-order-dependent", order_dependent)]); lr.build()
     n = 700 if not ck.thorough else 15000
     gens = [gen_case(ck.rng, ck.thorough) for _ in range(n)]
-    cases = [{"kind": "loc", "state": ck.rng.choice(["indexed", "linear"]), "locs": ["a"], "ops": o, "_failing": f} for o, f in gens]
+    allcases = [{"kind": "loc", "state": ck.rng.choice(["indexed", "linear"]), "locs": ["a"], "ops": o, "_failing": f, "_mixed": mx} for o, f, mx in gens]
+    listed = {f["id"]: f for f in known_findings("C04")}
+    kf = [listed.get(f["id"], f) for f in PROPOSED if f["id"] not in fixed_finding_ids("C04")]
+    tolerate_race = any(f["id"] == RACE_ID for f in kf)
+    # templates with a string that mixes text and variables are outside the model (the real answer depends on regexp details and on
+    # Go's map order): such histories only have to be answered
+    cases = [c for c in allcases if not c["_mixed"]]
+    mixed_cases = [c for c in allcases if c["_mixed"]]
+    POST_STATS["post_mixed_skipped"] = len(mixed_cases)
+    for c, i in zip(mixed_cases, run_cases(lr.drv, mixed_cases)):
+        outs = (i or {}).get("outs") if isinstance(i, dict) else None
+        if tolerate_race and racy_case(c) and isinstance(i, dict) and i.get("err") == "crash" and "concurrent map" in str(i.get("stderr")):
+            POST_STATS["known_race_crashes"] += 1
+            continue
+        bad = outs is None or len(outs) != len(c["ops"]) or any(not isinstance(o, dict) or o.get("err") in ("panic", "hang", "crashed") for o in outs)
+        if not bad:
+            bad = any(op["op"] == "event" and not isinstance(o.get("rules"), list) for op, o in zip(c["ops"], outs))
+        if bad:
+            ck.violation("a history with a post action whose code mixes text and variables is not answered: %s" % canon(i)[:300], {"case": c, "impl": i}, tag="mixed")
+    racy_cases = [c for c in cases if tolerate_race and racy_case(c)]
+    cases = [c for c in cases if not (tolerate_race and racy_case(c))]
     impl, model, mc = lr.run(cases, nontrivial=lambda c: sum(1 for o in c["ops"] if o["op"] == "addRule") >= 1)
+    # histories in the class of the known finding RACE_ID: a run that dies with the runtime's 'concurrent map' error is that finding; every
+    # run that survives is compared with the model like the others
+    survived = []
+    racy_reported = 0
+    rimpl, rmodel, rmc = run_histories(racy_cases, lr.drv, lr.mdl)
+    POST_STATS["histories_in_known_race_class"] = len(racy_cases)
+    for c, i, m in zip(rmc, rimpl, rmodel):
+        if isinstance(i, dict) and i.get("err") in ("crash", "hang", "skipped", "badjson"):
+            if i.get("err") == "crash" and "concurrent map" in str(i.get("stderr")):
+                POST_STATS["known_race_crashes"] += 1
+                continue
+            ck.violation("the real code %s on this history: %s" % (i.get("err"), str(i.get("stderr", ""))[-400:]), {"case": c, "impl": i}, tag="crash")
+            continue
+        ck.count({"s": c.get("state"), "ops": [{k: v for k, v in o.items() if k != "now"} for o in c["ops"]]})
+        survived.append((c, i))
+        for k, op, io, mo, same in compare_history(c, i, m):
+            if op is None:
+                ck.violation("driver failure: impl=%s model=%s" % (canon(io)[:300], canon(mo)[:300]), {"case": c, "impl": io, "model": mo}, tag="internal")
+                break
+            if not same:
+                if not order_dependent(c, k, op, mo, io) and racy_reported < 3:
+                    racy_reported += 1
+                    ck.violation("correspondence broken at op %d (%s, %s state): impl=%s model=%s" % (k, op["op"], c.get("state"), canon_out(op, io)[1][:400], canon_out(op, mo)[1][:400]),
+                                 lr.replay(c, k, io, mo), tag="corr")
+                break
     # the property directly on the real trees: values = values of complete action nodes; each (rule, when-binding) has one condition node;
     # every condition result binding carries event/location/ruleId; number of actions = bindings x |actions|
     dist = collections.Counter()
-    for c, i in zip(mc, impl):
+    reported = collections.Counter()
+    def post_violation(what, rp, tag):
+        reported[tag] += 1
+        if reported[tag] <= 3: ck.violation(what, rp, tag=tag)
+    for c, i in list(zip(mc, impl)) + survived:
         outs = (i or {}).get("outs") or []
         nact = {o["id"]: len(o["rule"].get("actions") or [o["rule"].get("action")]) for o in c["ops"] if o["op"] == "addRule"}
+        actsof = {o["id"]: rule_actions(o["rule"]) for o in c["ops"] if o["op"] == "addRule"}
+        allposts = [a for acts in actsof.values() for a in acts if is_post(a)]
         binds_builtin = {o["id"]: any(v in json.dumps(o["rule"].get("when")) for v in ("?location", "?ruleId", "?event")) for o in c["ops"] if o["op"] == "addRule"}
         for k, op in enumerate(c["ops"]):
             if op["op"] != "event" or k >= len(outs) or not isinstance(outs[k], dict): continue
@@ -96,6 +241,32 @@ def main():
             okvals = multiset([a.get("value") for r in t.get("rules") or [] for cn in r.get("conds") or [] for a in cn.get("acts") or [] if a.get("ok")])
             if vals != okvals:
                 ck.violation("the values list differs from the values of the complete action nodes: values=%s nodes=%s" % (vals[:4], okvals[:4]), rp, tag="values")
+            # each post action exactly once: the recording server received as many POSTs during the event as the tree has completed
+            # post action nodes (node i under a condition node belongs to action i mod |actions|), and every body is the body of
+            # one of the post actions under the bindings it carries (exact, array order included)
+            posts = t.get("posts") or []
+            oknodes = failednodes = 0
+            for r in t.get("rules") or []:
+                acts = actsof.get(r["id"]) or []
+                for cn in r.get("conds") or []:
+                    for j, a in enumerate(cn.get("acts") or []):
+                        if acts and is_post(acts[j % len(acts)]):
+                            if a.get("ok"):
+                                oknodes += 1
+                                if a.get("value") != "posted":
+                                    post_violation("rule %s: a completed post action has the value %s instead of the response body" % (r["id"], canon(a.get("value"))[:100]), rp, tag="postvalue")
+                            elif not a.get("notrun"): failednodes += 1
+            if allposts or posts:
+                dist["events_with_post_rules"] += 1
+                POST_STATS["posts_received"] += len(posts); POST_STATS["post_nodes_completed"] += oknodes; POST_STATS["post_nodes_failed"] += failednodes
+                if op.get("noDefaultVar"): POST_STATS["events_noDefaultVar"] += 1
+                if len(posts) != oknodes:
+                    post_violation("%d POSTs were received during the event but the tree has %d completed post action nodes" % (len(posts), oknodes), rp, tag="postcount")
+                for b in posts:
+                    if not isinstance(b, dict) or not isinstance(b.get("bindings"), dict) or not any(
+                            canon(post_body(a, b["bindings"], bool(op.get("noDefaultVar")))) == canon(b) for a in allposts):
+                        post_violation("a POST body is not the body of any post action under the bindings it carries: %s" % canon(b)[:300], rp, tag="postbody")
+                        break
             if t.get("aborted"): dist["aborted"] += 1; continue
             for r in t.get("rules") or []:
                 if len(r.get("conds") or []) != len(r.get("bss") or []):
@@ -106,13 +277,36 @@ def main():
                         ck.violation("rule %s: condition bindings lack event/location/ruleId: %s" % (r["id"], canon(bs)[:200]), rp, tag="env")
                     if nact.get(r["id"]) and len(cn.get("acts") or []) % nact[r["id"]] != 0:
                         ck.violation("rule %s has %d actions but its condition node carries %d action nodes" % (r["id"], nact[r["id"]], len(cn.get("acts") or [])), rp, tag="count")
+    # the known finding itself: its witness (40 events on a rule with two such post actions and a script) is run until the process dies
+    for f in kf:
+        res = run_cases(lr.drv, [f["witness"]] * (6 if not ck.thorough else 20), jobs=2)
+        died = [r for r in res if isinstance(r, dict) and r.get("err") == "crash" and "concurrent map" in str(r.get("stderr"))]
+        POST_STATS["witness_runs_died"] = "%d/%d" % (len(died), len(res))
+        if died:
+            ck.known_finding("%s: %s" % (f["id"], f["what"]))
+    # witnesses of findings that were repaired (listed under `fixed`) keep running as ordinary cases: the process must survive them
+    for f in PROPOSED:
+        if f["id"] in fixed_finding_ids("C04"):
+            res = run_cases(lr.drv, [f["witness"]] * (6 if not ck.thorough else 20), jobs=2)
+            died = [r for r in res if isinstance(r, dict) and r.get("err") in ("crash", "hang")]
+            POST_STATS["repaired_witness_runs_died"] = "%d/%d" % (len(died), len(res))
+            for c_ in res: ck.count({"witness": f["id"]})
+            if died:
+                ck.violation("the process %s on the witness of the repaired finding %s (%d of %d runs): %s" % (died[0].get("err"), f["id"], len(died), len(res), str(died[0].get("stderr"))[:300]),
+                             {"case": f["witness"], "impl": died[0]}, tag="crash")
     for c in cases[:2]:
         ck.sample({"state": c["state"], "ops": c["ops"][:6]})
     lr.finish_cov("rule sets of 0-4 rules with 1-3 actions each (template family: echo of the visible variables, literals, throw), conditions yielding 0-3 bindings (pattern joins, or, not, a failing code "
                   "term), multi-binding `when` matches through an array pattern with a variable, serialActions on/off, disabled rules; 1-3 events each; the whole work tree (rule nodes, condition nodes with "
-                  "their bindings, action nodes with disposition and value, values list) is compared with the Lean model and checked against the counting property directly; trees whose walk was aborted "
+                  "their bindings, action nodes with disposition and value, values list) is compared with the Lean model and checked against the counting property directly; about a fifth of the rules have "
+                  "actions with an HTTP endpoint (a recording server per history): JSON templates over the bound variables, subvars on/off/absent, opts, unbound variables with and without "
+                  "UseDefaultVariableValue, code that is not JSON; the received bodies are compared with the model's (substD, RulioModel/Subst.lean) and the number of POSTs with the number of completed "
+                  "post nodes; trees whose walk was aborted "
                   "(failed condition / failed serial action) are compared only up to the abort because the visiting order of rules is Go's map order")
     ck.cov["distribution"]["trees"] = dict(dist)
+    ck.cov["distribution"]["post"] = dict(POST_STATS)
+    ck.cov["trusted_base"].append("the recording HTTP server of the harness (net/http/httptest) as the observer of what is POSTed; lib/lochist.py py_subst/post_body (a second, "
+                                  "independent reading of substituteInterface on the fragment) for the exact check of every received body")
     ck.cov["trusted_base"].append("otto for the action templates; the goroutine fan-out of concurrent actions is exercised, not modelled (see C12)")
     proof_verdict(ck, pr)
     ck.finish()
